@@ -1644,6 +1644,14 @@ func (vc *VC) sliceOp(fr *Frame, in *ssa.Slice, pos token.Pos) *Val {
 		if !vc.noSafety(fr, "bounds") {
 			vc.oblige("safety-slice", "bounds", fmt.Sprintf("(and (<= 0 %s) (<= %s %s) (<= %s %s) (<= %s %s))", lo, lo, hi, hi, mx, mx, n), pos, "slice bounds in range")
 		}
+		if x.T == "" && x.Loc != nil && x.Loc.Kind == RElem {
+			// an array that is an element of a slice (e.g. hashPrefixes[i][:]):
+			// the bytes of such arrays are not tracked; the slice denotes an
+			// abstract buffer of the right length
+			buf := vc.allocRef("elemarr")
+			vc.used.Assumes["the contents of arrays stored as slice elements are not tracked (reads give arbitrary values, writes are not recorded)"] = true
+			return vc.named(in, fmt.Sprintf("(mk_slice %s %s (- %s %s) (- %s %s))", buf, lo, hi, lo, mx, lo), in.Type())
+		}
 		if x.T == "" {
 			vc.errorf("%s: slicing an array that is a local variable or a struct field (outside subset)", vc.p.fset.Position(pos))
 			return &Val{T: vc.fresh("slice", "Slice"), Ty: in.Type()}
